@@ -220,18 +220,6 @@ def shapeFields (v : Nat) : Fields → List ArrayData → Bool
   | _, _ => false
 end
 
-/-- no run-end encoded type anywhere -/
-def noRee : DType → Bool
-  | .ree _ _ => false
-  | .list _ item _ => noRee item
-  | .fsl _ item _ => noRee item
-  | .struct fs => noReeF fs
-  | .union _ fs => noReeF fs
-  | _ => true
-where noReeF : Fields → Bool
-  | .nil => true
-  | .cons _ t _ r => noRee t && noReeF r
-
 /-- dictionary value arrays in pre-order (delivered to the reader by the dictionary protocol) -/
 def dictChildren : ArrayData → List ArrayData
   | ⟨t, _, _, _, _, cs⟩ =>
